@@ -21,6 +21,10 @@ pub struct Case {
     pub op: u8,
     pub items: Vec<Item>,
     pub compact: bool,
+    /// a generated serialisation style (namespace prefix, whitespace, comments, quotes, XML
+    /// declaration, `<ok></ok>` for `<ok/>`); `None` = the fixture style selected by `compact`
+    #[serde(default)]
+    pub style: Option<Style>,
 }
 
 fn shape(items: &[Item]) -> String {
@@ -163,9 +167,26 @@ impl Prop for C08 {
             .prop_map(move |(k, i)| kinds[k][crate::core::pick_idx(i, kinds[k].len())])
             .prop_flat_map(|op| {
                 let kind = ReqSpec::canonical()[op as usize].reply_kind();
-                (Just(op), items_strategy(kind), any::<bool>())
+                (
+                    Just(op),
+                    items_strategy(kind),
+                    any::<bool>(),
+                    prop::option::weighted(0.5, crate::xmlgen::style_strategy()),
+                )
             })
-            .prop_map(|(op, items, compact)| Case { op, items, compact })
+            .prop_map(|(op, items, compact, style)| Case {
+                op,
+                items,
+                compact,
+                // the empty-container spellings are C13's subject (known findings there), and
+                // whitespace around token text would change the error fields themselves
+                style: style.map(|s| Style {
+                    collapse_containers: false,
+                    token_ws: crate::xmlgen::Ws::None,
+                    scope: None,
+                    ..s
+                }),
+            })
             .boxed()
     }
     fn fixed_cases(&self) -> Vec<Case> {
@@ -195,7 +216,17 @@ impl Prop for C08 {
                     op: i as u8,
                     items: s.clone(),
                     compact: false,
+                    style: None,
                 });
+                // the same sequences with every empty leaf written as start + end tag
+                if s.iter().any(|i| matches!(i, Item::Ok)) && s.iter().any(|i| matches!(i, Item::Err(_))) {
+                    out.push(Case {
+                        op: i as u8,
+                        items: s.clone(),
+                        compact: false,
+                        style: Some(Style { expand_empty: true, ..Style::canonical() }),
+                    });
+                }
             }
         }
         // load-configuration-results: all inner sequences of length <= 3, alone and with an
@@ -231,16 +262,27 @@ impl Prop for C08 {
                 op: load,
                 items: vec![Item::Results(s.clone())],
                 compact: true,
+                style: None,
             });
+            if s.iter().any(|i| matches!(i, Inner::Ok)) && s.iter().any(|i| matches!(i, Inner::Err(_))) {
+                out.push(Case {
+                    op: load,
+                    items: vec![Item::Results(s.clone())],
+                    compact: true,
+                    style: Some(Style { expand_empty: true, ..Style::compact() }),
+                });
+            }
             out.push(Case {
                 op: load,
                 items: vec![e.clone(), Item::Results(s.clone())],
                 compact: false,
+                style: None,
             });
             out.push(Case {
                 op: load,
                 items: vec![Item::Results(s.clone()), e.clone()],
                 compact: false,
+                style: None,
             });
         }
         out
@@ -251,10 +293,20 @@ impl Prop for C08 {
         let spec = &ops[case.op as usize % ops.len()];
         let kind = spec.reply_kind();
         let (sess, wire) = establish_caps(&all_caps());
-        let style = if case.compact {
-            Style::compact()
-        } else {
-            Style::canonical()
+        let fixture_style = case.style.is_none();
+        let style = match &case.style {
+            Some(s) => {
+                obs.class("style:generated");
+                if s.expand_empty {
+                    obs.class("style:empty-leaf-as-start-end");
+                }
+                if s.base_prefix.is_some() {
+                    obs.class("style:prefixed");
+                }
+                s.clone()
+            }
+            None if case.compact => Style::compact(),
+            None => Style::canonical(),
         };
         let items = case.items.clone();
         let (_s, _req, out) = run_req(sess, &wire, spec, |id| {
@@ -303,7 +355,9 @@ impl Prop for C08 {
             Outcome::RpcErrors(list) => {
                 obs.class("result:rpc-errors");
                 let expected: Vec<String> = errors.iter().map(|e| e.expected_debug()).collect();
-                if *list != expected {
+                // (in a generated style only the two "=> not Ok" oracles apply: equivalence of
+                // what is read under re-serialisation is C13's subject)
+                if fixture_style && *list != expected {
                     obs.fail(
                         format!("reported-errors-differ:{kind:?}:{sh}"),
                         format!(
@@ -321,7 +375,7 @@ impl Prop for C08 {
             ),
             Outcome::SendStuck => obs.fail("harness-sanity:send-stuck", "send did not complete"),
         }
-        if only_positive(kind, &case.items) && !out.is_ok() {
+        if fixture_style && only_positive(kind, &case.items) && !out.is_ok() {
             obs.fail(
                 format!("harness-sanity:plain-positive-reply-not-ok:{kind:?}"),
                 format!("{} plain positive reply gave {out:?}", spec.op_name()),
